@@ -30,7 +30,7 @@ m = {
         "guard": "verif",
         "enable": "go test -tags verif (the harness module /verif/harness binds the five modules of /repo with replace directives)",
         "baseline_off_cmd": "/verif/scripts/baseline.sh",
-        "source_commits": ["43bd664", "c7ab925"],
+        "source_commits": ["43bd664", "c7ab925", "2c281ae"],
         "add_only": True,
     },
     "engines": [
